@@ -161,7 +161,11 @@ def main(ctx: Ctx) -> int:
             for key, val in items:
                 s = f"{key}{sep}{val}"
                 inner = " " in val
-                toks.append({"shape": "inner" if inner else "plain", "id": tid_of(opt, f"{key}={val}")})
+                # a table entry may be typed with blanks around the key, the separator and the value (`CO : VB88Table`): the same entry
+                pad = (k // 7) % 2 == 1 or rng.random() < 0.3
+                if pad:
+                    s = rng.choice([f"{key} {sep} {val}", f" {key}{sep} {val} ", f"{key} {sep}{val}"])
+                toks.append({"shape": "inner" if inner else ("padded" if pad else "plain"), "id": tid_of(opt, f"{key}={val}")})
                 raw.append(s)
             req[opt] = toks
             if opt == "rate_modifier":
